@@ -180,6 +180,9 @@ def render_file(f):
         if t.get("xfail") == "false":
             L.append("import pytest")
             L.append("@pytest.mark.xfail(False, reason='condition is false: an ordinary test')")
+        elif t.get("xfail") == "false-str":
+            L.append("import pytest")
+            L.append("@pytest.mark.xfail('sys.version_info < (3,)', reason='a string condition that is false: an ordinary test')")
         elif t.get("xfail") == "false-kw":
             L.append("import pytest")
             L.append("@pytest.mark.xfail(condition=False, reason='condition is false (keyword form): an ordinary test')")
